@@ -311,7 +311,7 @@ def _root_events(repo_src: Path, rname: str):
     return convs, fields
 
 
-def extract_root(repo_src: Path, rname: str) -> dict:
+def extract_root(repo_src: Path, rname: str, with_load: bool = True) -> dict:
     convs, fields = _root_events(repo_src, rname)
     root = A.ROOTS[A.RIDX[rname]]
     # map each conversion to the root's reference field of that class (in order of appearance)
@@ -335,8 +335,8 @@ def extract_root(repo_src: Path, rname: str) -> dict:
     while si < len(snaps):
         steps.append(("Snap", TABLE_CLS[snaps[si][1]]))
         si += 1
-    # load order
-    load = _load_order(repo_src, rname)
+    # load order (not needed by checks that only concern the written document)
+    load = _load_order(repo_src, rname) if with_load else list(root["load"])
     return {"name": rname, "steps": steps, "load": load}
 
 
@@ -382,9 +382,9 @@ def _load_order(repo_src: Path, rname: str) -> list[str]:
 
 
 # ------------------------------------------------------------------------------------------------ whole extraction
-def extract_all(repo_src: Path) -> dict:
+def extract_all(repo_src: Path, with_load: bool = True) -> dict:
     objs = {n: extract_object(repo_src, n) for n in OBJ_MODULES}
-    roots = {n: extract_root(repo_src, n) for n in ROOT_MODULES}
+    roots = {n: extract_root(repo_src, n, with_load) for n in ROOT_MODULES}
     return {"objects": objs, "roots": roots, "dispatch": extract_dispatch(repo_src)}
 
 
